@@ -102,7 +102,13 @@ class Check:
             if sub in ("trunc", "flip"):
                 for m in members:
                     m["size"] = min(m.get("size", 0), 20)
-            world["nodes"].append({"path": p, "type": "file", "zip": {"members": members, "comment": rng.choice(["", "", "hello"])}})
+            recipe = {"members": members, "comment": rng.choice(["", "", "hello"])}
+            if sub == "list" and rng.random() < 0.15:
+                # an archive behind a launcher stub, sometimes larger than any end-of-central-directory search window (64 KiB + 22)
+                recipe["prefix"] = rng.choice([40, 4096, 70000])
+                if rng.random() < 0.5:
+                    members.append({"name": "big.bin", "size": 70000, "mode": 0o100644})
+            world["nodes"].append({"path": p, "type": "file", "zip": recipe})
             arcs.append(p)
         if sub == "list":
             d = rng.choice(dirs)
